@@ -134,6 +134,8 @@ type betweenCase struct {
 	Ghosts   int    `json:"ghosts,omitempty"`    // players who took that seat and left again before the newcomer came
 	GhostSat bool   `json:"ghost_sat,omitempty"` // ... and had sat in
 	Visits   []int  `json:"visits,omitempty"`    // per following hand: another empty seat that somebody tries and leaves again (-1 = nobody)
+	Sitters  []int  `json:"sitters,omitempty"`   // seats of players who have joined before the first hand but sit out ...
+	SitAt    []int  `json:"sit_at,omitempty"`    // ... and sit in before that hand after the newcomer's arrival (-1 = never)
 	Trace    string `json:"trace,omitempty"`
 }
 
@@ -154,6 +156,16 @@ func runBetween(c *betweenCase) (v *vlib.Violation, valid bool) {
 			return nil, false
 		}
 		m.Seat(s)
+		taken[s] = true
+	}
+	// players who keep their seat but sit out (and come back later): they stay put too
+	for _, s := range c.Sitters {
+		if taken[s] {
+			continue
+		}
+		if _, err := m.Join(s, fmt.Sprintf("sitter%d", s)); err != nil {
+			return nil, false
+		}
 		taken[s] = true
 	}
 	for i := 0; i < c.Nexts; i++ {
@@ -207,6 +219,12 @@ func runBetween(c *betweenCase) (v *vlib.Violation, valid bool) {
 				}
 			}
 		}
+		for k, s := range c.Sitters {
+			if k < len(c.SitAt) && c.SitAt[k] == i {
+				m.Seat(s)
+				tr += fmt.Sprintf(" [seat %d sits in]", s)
+			}
+		}
 		if err := m.Next(); err != nil {
 			return vlib.V("C08", "newcomer/next-refused", "%s: Next() failed with everybody staying put: %v", tr, err), true
 		}
@@ -219,10 +237,41 @@ func runBetween(c *betweenCase) (v *vlib.Violation, valid bool) {
 			}
 			passed = true
 		}
-		in := playable(m)[x]
+		pl := playable(m)
+		in := pl[x]
 		tr += fmt.Sprintf(" ->dealer %d (in=%v)", nd, in)
 		if in && !passed {
-			return vlib.V("C08", "newcomer/dealt-in-early", "%s", tr), true
+			// With everybody else unchanged the newcomer's seat is still between button
+			// and blinds. When a sat-out player has come back meanwhile, the blinds may
+			// have moved in front of the newcomer: he must stay out only while his seat
+			// still lies strictly between the dealer and the big blind the others have
+			// among themselves.
+			strict := true
+			for k := range c.Sitters {
+				if k < len(c.SitAt) && c.SitAt[k] >= 0 && c.SitAt[k] <= i {
+					strict = false
+				}
+			}
+			if !strict {
+				others := map[int]bool{}
+				for s, ok := range pl {
+					if ok && s != x {
+						others[s] = true
+					}
+				}
+				bbOthers := firstAfter(others, nd, c.Max)
+				if len(others) >= 3 {
+					bbOthers = firstAfter(others, bbOthers, c.Max)
+				}
+				if bbOthers >= 0 && between(nd, x, bbOthers, c.Max) {
+					return vlib.V("C08", "newcomer/dealt-in-early", "%s: dealt in on a seat between the dealer and the big blind of the others (%d)", tr, bbOthers), true
+				}
+				// let in behind the blinds: from now on he is one of the players
+				c.Trace = tr
+				return nil, true
+			} else {
+				return vlib.V("C08", "newcomer/dealt-in-early", "%s", tr), true
+			}
 		}
 		if !in && passed {
 			return vlib.V("C08", "newcomer/dealt-in-late", "%s", tr), true
@@ -253,11 +302,28 @@ func TestNewcomerBetween(t *testing.T) {
 		if rapid.IntRange(0, 2).Draw(rt, "visitors") == 0 {
 			c.Visits = rapid.SliceOfN(rapid.IntRange(-1, c.Max-1), 0, 2*c.Max).Draw(rt, "visits")
 		}
+		if k < c.Max-1 && rapid.IntRange(0, 2).Draw(rt, "sitters") == 0 {
+			rest := rapid.Permutation(all).Draw(rt, "sitterSeats")
+			n := rapid.IntRange(1, 2).Draw(rt, "nSitters")
+			for _, s := range rest {
+				isSeated := false
+				for _, x := range c.Seated {
+					if x == s {
+						isSeated = true
+					}
+				}
+				if !isSeated && len(c.Sitters) < n && len(c.Sitters) < c.Max-1-k {
+					c.Sitters = append(c.Sitters, s)
+					c.SitAt = append(c.SitAt, rapid.IntRange(-1, 2*c.Max-1).Draw(rt, "sitAt"))
+				}
+			}
+		}
 		v, valid := runBetween(c)
 		st.Evaluations++
 		if valid {
 			st.Class("valid-in-between-seat")
-			st.NonTrivial(vlib.Hash(c.Max, c.Seated, c.Nexts, c.Seat, c.Ghosts, c.GhostSat, c.Visits))
+			st.ClassIf(len(c.Sitters) > 0, "sat-out-player-returns")
+			st.NonTrivial(vlib.Hash(c.Max, c.Seated, c.Nexts, c.Seat, c.Ghosts, c.GhostSat, c.Visits, c.Sitters, c.SitAt))
 			st.ClassIf(c.Ghosts > 0, "seat-tried-and-left-before")
 			st.Sample(c)
 		}
